@@ -11,8 +11,8 @@ from .tools import RECIPE_SRC, recipe_eval
 
 ID = "C14"
 LEVEL = "exploration"
-BUDGET = {"quick": 960, "thorough": 19200}
-WALL_CAP = {"quick": 420, "thorough": 3300}
+BUDGET = {"quick": 3200, "thorough": 64000}
+WALL_CAP = {"quick": 600, "thorough": 5400}
 RULE = ("case = history of 1-4 operations over {colander(vars, limit), combine(with a sibling or ancestor on the same "
         "mesh, optional selections), chef(user recipe, kept fields)} starting from 1-2 generated 3D plotfiles on one "
         "mesh (independent layouts) or from a chk2plt conversion of a synthetic checkpoint; every operation runs "
